@@ -58,10 +58,8 @@ Theorem C17_encoding_invariant_pinned_refuted : exists c d, v_data_json_pinned c
 Proof. exact encoding_invariant_pinned_refuted. Qed.
 Print Assumptions C17_encoding_invariant_pinned_refuted.
 
-(* the none schema and a nil schema accept every decodable document with well-formed annotations at every entry
-   point; the funnel entry points accept everything *)
-Theorem C17_nop_accepts : forall d,
-  top_decodable d = true -> annotations_wf d -> Forall (fun ep => ep CfgNop d = true) entry_points.
+(* the none schema and a nil schema never reject a decodable (parseable, top-level object or null) document, at any entry point *)
+Theorem C17_nop_accepts : forall d, top_decodable d = true -> Forall (fun ep => ep CfgNop d = true) entry_points.
 Proof. exact nop_accepts. Qed.
 Print Assumptions C17_nop_accepts.
 Theorem C17_nop_funnel_accepts : forall d,
@@ -71,12 +69,10 @@ Print Assumptions C17_nop_funnel_accepts.
 Theorem C17_nil_accepts : forall d, top_decodable d = true -> Forall (fun ep => ep CfgNil d = true) entry_points.
 Proof. exact nil_accepts. Qed.
 Print Assumptions C17_nil_accepts.
-
-(* without the proviso on annotations the statement about the none schema is false of the code: ValidateData and
-   ValidateFile(x.yaml) run the annotation content check also for the no-op schema *)
-Theorem C17_nop_accepts_unconditionally_refuted : exists d, top_decodable d = true /\ v_data_json CfgNop d = false.
-Proof. exact nop_accepts_unconditionally_refuted. Qed.
-Print Assumptions C17_nop_accepts_unconditionally_refuted.
+(* the defect repaired by fix 748fe15: the no-op schema still ran the annotation content check *)
+Theorem C17_nop_accepts_pinned_refuted : exists d, top_decodable d = true /\ run_data_pinned_nop CfgNop d = false.
+Proof. exact nop_accepts_pinned_refuted. Qed.
+Print Assumptions C17_nop_accepts_pinned_refuted.
 
 (* hypotheses are satisfiable and the verdicts are not constant *)
 Example C17_example_wf : annotations_wf good_doc /\ top_decodable good_doc = true.
